@@ -1843,6 +1843,309 @@ let run_pc_pst13 c =
     end
   end
 
+(* ---------------- linear codes (Ligero univariate / multilinear, Brakedown): trait-level flows on the threaded transcript ---------------- *)
+let run_pc_lincode c =
+  let fo = fo () in
+  let scheme = str1 c "scheme" in
+  if has c "dims.0" && has c "wf" then begin
+    obs1 "commit" "S" "ok";
+    let n = int1 c "n" in
+    let wf = int1 c "wf" = 1 in
+    let nn = nat_of_int in
+    let undash k = let v = get c k in if v = [ "-" ] then [] else v in
+    let bd = scheme = "brakedown_ml" and uni = scheme = "ligero_uni" in
+    let dims = Array.init n (fun i -> match List.map int_of_string (get c (Printf.sprintf "dims.%d" i)) with [ a; b; cc ] -> (a, b, cc) | _ -> failwith "dims") in
+    let usable = ref true in
+    let enc = Array.init n (fun i ->
+        let (_, _, ne) = dims.(i) in
+        if bd then begin
+          let g = List.map (fun (_, row) -> if row = [ "none" ] then (usable := false; []) else List.map f_of_str row) (indexed c (Printf.sprintf "G.%d" i)) in
+          Ligero.mat_enc fo g (nn ne)
+        end else begin
+          let o = str1 c (Printf.sprintf "omega.%d" i) in
+          if o = "none" then (usable := false; fun x -> x) else Ligero.encode fo (f_of_str o) (nn ne)
+        end) in
+    if !usable then begin
+      let rows = Array.init n (fun i -> let (nr, nc, _) = dims.(i) in Ligero.lig_matrix fo (nn nr) (nn nc) (List.map f_of_str (undash (Printf.sprintf "coeffs.%d" i)))) in
+      let cm = Array.init n (fun i ->
+          let (nr, nc, ne) = dims.(i) in
+          { LinCodeList.cm_enc = enc.(i); cm_n_rows = nn nr; cm_n_cols = nn nc; cm_n_ext = nn ne; cm_cext = List.map enc.(i) rows.(i);
+            cm_t = (match str1 c (Printf.sprintf "t.%d" i) with "err" -> Result.Err Result.EInvalidParameters | k -> Result.Ok (nn (int_of_string k))) }) in
+      let tensor pt nc nr = if uni then (match pt with [ z ] -> Result.Ok (Ligero.tensor_uni fo z nc nr) | _ -> Result.Panic) else Ligero.tensor_ml fo pt nc in
+      let npts = int1 c "npts" in
+      let pts = Array.init npts (fun j -> List.map f_of_str (undash (Printf.sprintf "ptvec.%d" j))) in
+      (* the points as the query sets order them (the library's own point type) *)
+      let qpts = Array.init npts (fun j -> fs_of c (Printf.sprintf "pt.%d" j)) in
+      let value_of i j = match tensor pts.(j) cm.(i).LinCodeList.cm_n_cols cm.(i).LinCodeList.cm_n_rows with
+        | Result.Ok (a, b) -> (match Ligero.row_mul fo rows.(i) cm.(i).LinCodeList.cm_n_cols b with Result.Ok v -> Ligero.ip fo v a | _ -> tof Z.zero)
+        | _ -> tof Z.zero in
+      let rec split k l = if k = 0 then ([], l) else (match l with x :: t -> let (a, b) = split (k - 1) t in (x :: a, b) | [] -> ([], [])) in
+      let parse_events key =
+        if not (has c key) then [] else
+          let rec go = function
+            | [] | [ "-" ] -> []
+            | "F" :: k :: rest -> let (a, b) = split (int_of_string k) rest in LinCodeList.SqF (List.map f_of_str a) :: go b
+            | "B" :: k :: rest -> let (a, b) = split (int_of_string k) rest in LinCodeList.SqB (List.map Z.of_string a) :: go b
+            | _ -> failwith "events" in
+          go (get c key) in
+      let nfield evs = List.fold_left (fun acc e -> match e with LinCodeList.SqF l -> acc + List.length l | _ -> acc) 0 evs in
+      let emit_pf name pfs =
+        obs1 (name ^ ".n") "N" (string_of_int (List.length pfs));
+        List.iteri (fun i pf ->
+            let k x = Printf.sprintf "%s.%d.%s" name i x in
+            obs (k "v") "F" (dash (fs_to pf.Ligero.lf_v));
+            obs (k "wf") "F" (match pf.Ligero.lf_wf with Some w -> dash (fs_to w) | None -> [ "none" ]);
+            obs (k "leaf_idx") "N" (dash (List.map (fun p -> string_of_int (int_of_nat p.Ligero.lpt_index)) pf.Ligero.lf_paths));
+            obs (k "col_lens") "N" (dash (List.map (fun col -> string_of_int (List.length col)) pf.Ligero.lf_cols));
+            obs (k "cols") "F" (dash (List.concat_map fs_to pf.Ligero.lf_cols))) pfs in
+      (* a proof array handed over as sent: intact i = are the paths of inner proof i authentic *)
+      let read_pf prefix intact =
+        let cnt = int1 c (prefix ^ ".n") in
+        List.init cnt (fun i ->
+            let q x = Printf.sprintf "%s.%d.%s" prefix i x in
+            let lens = List.map int_of_string (undash (q "col_lens")) in
+            let flat = ref (List.map f_of_str (undash (q "cols"))) in
+            let cols = List.map (fun len -> let (h, t) = split len !flat in flat := t; h) lens in
+            let wfv = let v = get c (q "wf") in if v = [ "none" ] then None else Some (List.map f_of_str (if v = [ "-" ] then [] else v)) in
+            { Ligero.lf_paths = List.map (fun s -> { Ligero.lpt_index = nn (int_of_string s); Ligero.lpt_intact = intact i }) (undash (q "leaf_idx"));
+              Ligero.lf_v = List.map f_of_str (undash (q "v")); Ligero.lf_cols = cols; Ligero.lf_wf = wfv }) in
+      let lc_open items pt tape = LinCodeList.lc_open_list fo tensor wf items pt tape in
+      let lc_check cms pt vals pfs tape = LinCodeList.lc_check_list fo tensor wf cms pt vals pfs tape in
+      let dec r = decision (match r with Result.Ok (b, _) -> Result.Ok b | Result.Err e -> Result.Err e | Result.Panic -> Result.Panic) in
+      let lab i = nlabel (int1 c (Printf.sprintf "label.%d" i)) in
+      let cmpz a b = Z.compare (ofz a) (ofz b) in
+      let rec cmpl a b = match a, b with [], [] -> 0 | [], _ -> -1 | _, [] -> 1 | x :: a', y :: b' -> let r = cmpz x y in if r <> 0 then r else cmpl a' b' in
+      (* the model's point of a query is the point vector; the ORDER of queries and evaluations is the order of the library's point type *)
+      let pt_index = Hashtbl.create 8 in
+      Array.iteri (fun j q -> Hashtbl.replace pt_index (String.concat "," (fs_to q)) j) qpts;
+      let qs_ev tr3 newpt deltas drop =
+        let usept pj = match newpt with Some (o, nw) when o = pj -> nw | _ -> pj in
+        let qs = List.sort_uniq (fun (l1, (p1, z1)) (l2, (p2, z2)) ->
+            let r = Z.compare l1 l2 in if r <> 0 then r else let r = Z.compare p1 p2 in if r <> 0 then r else cmpl z1 z2)
+            (List.map (fun (i, zl, pj) -> (lab i, (nlabel zl, qpts.(usept pj)))) tr3) in
+        let tbl = Hashtbl.create 16 in
+        List.iter (fun (i, _, pj) -> Hashtbl.replace tbl (Z.to_string (lab i) ^ "@" ^ String.concat "," (fs_to qpts.(usept pj)))
+                      ((lab i, qpts.(usept pj)), value_of i pj)) tr3;
+        let ev = Hashtbl.fold (fun _ v acc -> v :: acc) tbl [] in
+        let evm = List.sort (fun ((l1, z1), _) ((l2, z2), _) -> let r = Z.compare l1 l2 in if r <> 0 then r else cmpl z1 z2) ev in
+        let evm = List.mapi (fun idx (kx, v) -> (kx, List.fold_left (fun acc (kk, d) -> if kk = idx then fo.Field.fadd acc d else acc) v deltas)) evm in
+        let evm = match drop with Some kk -> List.filteri (fun idx _ -> idx <> kk) evm | None -> evm in
+        (qs, evm) in
+      (* the functor works on the library's points; the scheme's functions get the point vector of that point *)
+      let vec_of q = match Hashtbl.find_opt pt_index (String.concat "," (fs_to q)) with Some j -> pts.(j) | None -> q in
+      let f_open items q tape = lc_open items (vec_of q) tape in
+      let f_check cms q vals pfs tape = lc_check cms (vec_of q) vals pfs tape in
+      let nops = int1 c "nops" in
+      let recs = Array.make nops None in
+      for t = 0 to nops - 1 do
+        let k x = Printf.sprintf "%s.%d" x t in
+        let ptape = parse_events (k "psq") and vtape = parse_events (k "vsq") in
+        let ident = List.init n (fun i -> i) in
+        let pperm = if has c (k "pperm") then List.map int_of_string (get c (k "pperm")) else ident in
+        let vperm = if has c (k "vperm") then List.map int_of_string (get c (k "vperm")) else ident in
+        match get c (k "op") with
+        | "single" :: pj :: sel ->
+          let pj = int_of_string pj and sel = List.map int_of_string sel in
+          let values = List.map (fun i -> value_of i pj) sel in
+          obs (k "evals") "F" (dash (fs_to values));
+          let r = lc_open (List.map (fun i -> (cm.(i), rows.(i))) sel) pts.(pj) ptape in
+          obs1 (k "open") "S" (class_of r);
+          (match r with
+           | Result.Ok (pfs, rest) ->
+             obs1 (k "nchal") "N" (string_of_int (nfield ptape - nfield rest));
+             emit_pf (Printf.sprintf "pf.%d" t) pfs;
+             let d = lc_check (List.map (fun i -> cm.(i)) sel) pts.(pj) values pfs vtape in
+             obs1 (k "check") "S" (dec d);
+             (match d with Result.Ok (_, vrest) -> obs1 (k "nvchal") "N" (string_of_int (nfield vtape - nfield vrest)) | _ -> ());
+             recs.(t) <- Some (`Single (pj, sel, values, pfs))
+           | _ -> ())
+        | [ "batch"; sq ] ->
+          let tr3 = triples3 (get c ("qs." ^ sq)) in
+          let (qs, evm) = qs_ev tr3 None [] None in
+          obs (k "evals") "F" (dash (fs_to (List.map snd evm)));
+          let items = List.map (fun i -> (lab i, (cm.(i), rows.(i)))) pperm in
+          let r = DefaultBatch.default_batch_open fo f_open items qs ptape in
+          obs1 (k "open") "S" (class_of r);
+          (match r with
+           | Result.Ok (pfl, rest) ->
+             obs1 (k "nchal") "N" (string_of_int (nfield ptape - nfield rest));
+             obs1 (k "nproofs") "N" (string_of_int (List.length pfl));
+             List.iteri (fun g pfs -> emit_pf (Printf.sprintf "pf.%d.%d" t g) pfs) pfl;
+             let cml = List.map (fun i -> (lab i, cm.(i))) vperm in
+             let d = DefaultBatch.default_batch_check fo f_check cml qs evm pfl vtape in
+             obs1 (k "check") "S" (dec d);
+             (match d with Result.Ok (_, vrest) -> obs1 (k "nvchal") "N" (string_of_int (nfield vtape - nfield vrest)) | _ -> ());
+             recs.(t) <- Some (`Batch (tr3, pfl, vperm))
+           | _ -> ())
+        | [ "lc"; sq; ls ] ->
+          let lcs = List.map (fun (_, v) ->
+              let lb = nlabel (int_of_string (List.nth v 0)) in
+              let rec go = function
+                | co :: tm :: r -> (f_of_str co, (if tm = "one" then LC.TOne else LC.TPoly (lab (int_of_string tm)))) :: go r
+                | _ -> [] in
+              (lb, go (List.tl (List.tl v)))) (indexed c ("lcs." ^ sq)) in
+          let lcarr = Array.of_list lcs in
+          let tr3 = triples3 (get c ("lqs." ^ ls)) in
+          let idx_of_label l = let rec f i = if i >= n then 0 else if Z.equal (lab i) l then i else f (i + 1) in f 0 in
+          let lc_value (_, terms) pj = List.fold_left (fun acc (co, tm) ->
+              fo.Field.fadd acc (match tm with
+                  | LC.TOne -> co
+                  | LC.TPoly l -> fo.Field.fmul co (value_of (idx_of_label l) pj))) (tof Z.zero) terms in
+          let qs = List.sort_uniq (fun (l1, (p1, z1)) (l2, (p2, z2)) ->
+              let r = Z.compare l1 l2 in if r <> 0 then r else let r = Z.compare p1 p2 in if r <> 0 then r else cmpl z1 z2)
+              (List.map (fun (kk, zl, pj) -> (fst lcarr.(kk), (nlabel zl, qpts.(pj)))) tr3) in
+          let eqn_ev deltas =
+            let tbl = Hashtbl.create 16 in
+            List.iter (fun (kk, _, pj) -> Hashtbl.replace tbl (Z.to_string (fst lcarr.(kk)) ^ "@" ^ String.concat "," (fs_to qpts.(pj)))
+                          ((fst lcarr.(kk), qpts.(pj)), lc_value lcarr.(kk) pj)) tr3;
+            let l = List.sort (fun ((l1, z1), _) ((l2, z2), _) -> let r = Z.compare l1 l2 in if r <> 0 then r else cmpl z1 z2)
+                (Hashtbl.fold (fun _ v acc -> v :: acc) tbl []) in
+            List.mapi (fun idx (kx, v) -> (kx, List.fold_left (fun acc (kk, d) -> if kk = idx then fo.Field.fadd acc d else acc) v deltas)) l in
+          let ev0 = eqn_ev [] in
+          obs (k "evals") "F" (dash (fs_to (List.map snd ev0)));
+          let items = List.map (fun i -> (lab i, (i, (cm.(i), rows.(i))))) pperm in
+          let open2 its q st = f_open (List.map snd its) q st in
+          let eval_item (i, _) q = match Hashtbl.find_opt pt_index (String.concat "," (fs_to q)) with Some j -> value_of i j | None -> tof Z.zero in
+          let r = DefaultBatch.default_open_combinations fo open2 eval_item lcs items qs ptape in
+          obs1 (k "open") "S" (class_of r);
+          (match r with
+           | Result.Ok ((pfl, evs), rest) ->
+             obs1 (k "nchal") "N" (string_of_int (nfield ptape - nfield rest));
+             obs (k "lc_evals") "F" (dash (fs_to evs));
+             obs1 (k "nproofs") "N" (string_of_int (List.length pfl));
+             List.iteri (fun g pfs -> emit_pf (Printf.sprintf "pf.%d.%d" t g) pfs) pfl;
+             let cml = List.map (fun i -> (lab i, cm.(i))) vperm in
+             let d = DefaultBatch.default_check_combinations fo f_check lcs cml qs ev0 pfl (Some evs) vtape in
+             obs1 (k "check") "S" (dec d);
+             (match d with Result.Ok (_, vrest) -> obs1 (k "nvchal") "N" (string_of_int (nfield vtape - nfield vrest)) | _ -> ());
+             recs.(t) <- Some (`LC (lcs, qs, eqn_ev, pfl, evs, vperm))
+           | _ -> ())
+        | _ -> ()
+      done;
+      (* ---- mutated verifier runs: the proof as sent, the verifier's own transcript of that run ---- *)
+      List.iter (fun (m, mv) ->
+          let name = Printf.sprintf "mut.%d" m in
+          let t = int_of_string (List.nth mv 0) and kind = List.nth mv 1 in
+          let args = List.tl (List.tl mv) in
+          let arg i = List.nth args i in
+          let mkey = Printf.sprintf "msq.%d" m in
+          if t < nops && has c mkey then begin
+            let mtape = parse_events mkey in
+            let cma = Array.copy cm in
+            let mpf = Printf.sprintf "mpf.%d" m in
+            (* tampered paths: the paths of the mutated inner proof (and of its copies appended by list_extend) are not authentic *)
+            let read_mutated kind2 j orig_len =
+              let which = if orig_len = 0 then 0 else j mod orig_len in
+              let tam = kind2 = "path_index" || kind2 = "path_node" in
+              read_pf mpf (fun i -> not (tam && (i = which || i >= orig_len))) in
+            match recs.(t) with
+            | Some (`Single (pj, sel, values, pfs)) ->
+              let pj = ref pj and sel = ref sel and values = ref values and pfs = ref pfs and ok = ref true in
+              (match kind with
+               | "value" -> let kk = int_of_string (arg 0) in
+                 if kk < List.length !values then values := List.mapi (fun i v -> if i = kk then fo.Field.fadd v (f_of_str (arg 1)) else v) !values else ok := false
+               | "point" -> pj := int_of_string (arg 0)
+               | "comm_swap" -> let i = int_of_string (arg 0) and j = int_of_string (arg 1) in cma.(i) <- cm.(j)
+               | "proof_from" -> (match (try recs.(int_of_string (arg 0)) with _ -> None) with
+                   | Some (`Single (_, _, _, p2)) -> pfs := p2 | _ -> ok := false)
+               | "sponge_pre" -> ()
+               | "drop_poly" -> let kk = int_of_string (arg 0) in
+                 if kk < List.length !sel then begin
+                   sel := List.filteri (fun i _ -> i <> kk) !sel; values := List.filteri (fun i _ -> i <> kk) !values end else ok := false
+               | ("proof_mut" | "proof_mut_v") when has c (mpf ^ ".n") ->
+                 let j = (try int_of_string (arg 1) with _ -> 0) in
+                 pfs := read_mutated (arg 0) j (List.length !pfs);
+                 values := List.map f_of_str (undash (Printf.sprintf "mvals.%d" m))
+               | "attack" when has c (mpf ^ ".n") ->
+                 pfs := read_pf mpf (fun _ -> true);
+                 values := List.map f_of_str (undash (Printf.sprintf "mvals.%d" m))
+               | _ -> ok := false);
+              if !ok then obs1 name "S" (dec (lc_check (List.map (fun i -> cma.(i)) !sel) pts.(!pj) !values !pfs mtape))
+            | Some (`Batch (tr3, pfl, vperm)) ->
+              let tr3 = ref tr3 and pfl = ref pfl and vperm = ref vperm and ok = ref true in
+              let deltas = ref [] and drop = ref None and newpt = ref None in
+              (match kind with
+               | "value" -> deltas := [ (int_of_string (arg 0), f_of_str (arg 1)) ]
+               | "cancel" -> let d = f_of_str (arg 2) in
+                 deltas := [ (int_of_string (arg 0), d); (int_of_string (arg 1), fo.Field.fopp d) ]
+               | "point" -> newpt := Some (int_of_string (arg 0), int_of_string (arg 1))
+               | "comm_swap" -> let i = int_of_string (arg 0) and j = int_of_string (arg 1) in cma.(i) <- cm.(j)
+               | "proof_mut" when has c (mpf ^ ".n") ->
+                 let g = int_of_string (arg 0) in
+                 if g < List.length !pfl then begin
+                   let j = (try int_of_string (arg 2) with _ -> 0) in
+                   let mp = read_mutated (arg 1) j (List.length (List.nth !pfl g)) in
+                   pfl := List.mapi (fun i p -> if i = g then mp else p) !pfl end else ok := false
+               | "proofs" ->
+                 let a () = int_of_string (arg 1) and b () = int_of_string (arg 2) in
+                 let len = List.length !pfl in
+                 (match arg 0 with
+                  | "perm" -> if a () < len && b () < len then begin
+                      let x = List.nth !pfl (a ()) and y = List.nth !pfl (b ()) in
+                      pfl := List.mapi (fun i p -> if i = a () then y else if i = b () then x else p) !pfl end else ok := false
+                  | "trunc" -> if a () < len then pfl := List.filteri (fun i _ -> i < a ()) !pfl else ok := false
+                  | "dup" -> if a () < len && b () < len then begin
+                      let x = List.nth !pfl (a ()) in pfl := List.mapi (fun i p -> if i = b () then x else p) !pfl end else ok := false
+                  | "empty" -> pfl := []
+                  | "extend" -> if len > 0 then pfl := !pfl @ [ List.nth !pfl (len - 1) ] else ok := false
+                  | _ -> ok := false)
+               | "proof_from" -> (match (try recs.(int_of_string (arg 0)) with _ -> None) with
+                   | Some (`Batch (_, p2, _)) -> pfl := p2 | _ -> ok := false)
+               | "sponge_pre" -> ()
+               | "vperm" -> vperm := List.map int_of_string args
+               | "drop_query" -> let kk = int_of_string (arg 0) in
+                 if kk < List.length !tr3 then tr3 := List.filteri (fun i _ -> i <> kk) !tr3 else ok := false
+               | "drop_eval" -> drop := Some (int_of_string (arg 0))
+               | "drop_comm" -> let i = int_of_string (arg 0) in vperm := List.filter (fun x -> x <> i) !vperm
+               | _ -> ok := false);
+              if !ok then begin
+                let (qs, evm0) = qs_ev !tr3 !newpt [] None in
+                let nk = List.length evm0 in
+                if List.exists (fun (kk, _) -> kk >= nk) !deltas || (match !drop with Some kk -> kk >= nk | None -> false) then ()
+                else begin
+                  let (_, evm) = qs_ev !tr3 !newpt !deltas !drop in
+                  let cml = List.map (fun i -> (lab i, cma.(i))) !vperm in
+                  obs1 name "S" (dec (DefaultBatch.default_batch_check fo f_check cml qs evm !pfl mtape))
+                end
+              end
+            | Some (`LC (lcs0, qs, eqn_ev, pfl, evs, vperm)) ->
+              let lcs = ref lcs0 and pfl = ref pfl and evs = ref evs and ok = ref true and deltas = ref [] in
+              let upd kk f = lcs := List.mapi (fun i (lb, terms) -> if i = kk then (lb, f terms) else (lb, terms)) !lcs in
+              (match kind with
+               | "value" -> deltas := [ (int_of_string (arg 0), f_of_str (arg 1)) ]
+               | "coeff" -> let kk = int_of_string (arg 0) and tk = int_of_string (arg 1) in
+                 if kk < List.length !lcs && tk < List.length (snd (List.nth !lcs kk)) then
+                   upd kk (List.mapi (fun i (co, tm) -> if i = tk then (fo.Field.fadd co (f_of_str (arg 2)), tm) else (co, tm)))
+                 else ok := false
+               | "const" -> let kk = int_of_string (arg 0) in
+                 if kk < List.length !lcs then upd kk (fun terms -> terms @ [ (f_of_str (arg 1), LC.TOne) ]) else ok := false
+               | "evals" -> let a = int_of_string (arg 0) in
+                 if a < List.length !evs then evs := List.mapi (fun i v -> if i = a then fo.Field.fadd v (f_of_str (arg 1)) else v) !evs else ok := false
+               | "comm_swap" -> let i = int_of_string (arg 0) and j = int_of_string (arg 1) in cma.(i) <- cm.(j)
+               | "proofs" ->
+                 let len = List.length !pfl in
+                 (match arg 0 with
+                  | "empty" -> pfl := []
+                  | "trunc" -> let kk = int_of_string (arg 1) in if kk < len then pfl := List.filteri (fun i _ -> i < kk) !pfl else ok := false
+                  | "extend" -> if len > 0 then pfl := !pfl @ [ List.nth !pfl (len - 1) ] else ok := false
+                  | _ -> ok := false)
+               | "sponge_pre" -> ()
+               | _ -> ok := false);
+              if !ok then begin
+                let ev0 = eqn_ev [] in
+                let nk = List.length ev0 in
+                if List.exists (fun (kk, _) -> kk >= nk) !deltas then ()
+                else begin
+                  let cml = List.map (fun i -> (lab i, cma.(i))) vperm in
+                  obs1 name "S" (dec (DefaultBatch.default_check_combinations fo f_check !lcs cml qs (eqn_ev !deltas) !pfl (Some !evs) mtape))
+                end
+              end
+            | None -> ()
+          end)
+        (indexed c "mut")
+    end
+  end
+
 let run_pc c =
   if has c "c19" then run_c19 c else begin
   (match str1 c "scheme" with
@@ -1851,6 +2154,7 @@ let run_pc c =
    | "hyrax" when has c "ctape" -> run_pc_hyrax c
    | "ipa" when has c "ctape" -> run_pc_ipa c
    | "pst13" when has c "betas" -> run_pc_pst13 c
+   | "ligero_uni" | "ligero_ml" | "brakedown_ml" -> run_pc_lincode c
    | _ -> ());
   if has c "c12" then run_c12 c end
 
